@@ -199,43 +199,75 @@ func c28(x *Ctx) {
 		if rel != "config" && rel != "sample" && rel != "collect" && rel != "route" && rel != "types" {
 			continue
 		}
+		if rv := f.Signature.Recv(); rv != nil && strings.Contains(rv.Type().String(), "config.Metadata") {
+			continue // the embedded documentation metadata is part of the binary, not user input
+		}
 		eng.Instrs(f, func(in ssa.Instruction) {
-			type strIndex struct{ X, Index ssa.Value }
-			var lk strIndex
+			// s[k] and s[a:b] with constant bounds need len(s) > k / len(s) >= b
+			var sx ssa.Value
+			var need int64 // minimal length that makes the access safe
+			what := ""
 			switch y := in.(type) {
 			case *ssa.Lookup:
-				lk = strIndex{y.X, y.Index}
+				if k, ok := eng.ConstInt(y.Index); ok {
+					sx, need, what = y.X, k+1, sprintf("s[%d]", k)
+				}
 			case *ssa.Index:
-				lk = strIndex{y.X, y.Index}
-			default:
+				if k, ok := eng.ConstInt(y.Index); ok {
+					sx, need, what = y.X, k+1, sprintf("s[%d]", k)
+				}
+			case *ssa.Slice:
+				hi, lo := int64(-1), int64(-1)
+				if y.High != nil {
+					if k, ok := eng.ConstInt(y.High); ok {
+						hi = k
+					}
+				}
+				if y.Low != nil {
+					if k, ok := eng.ConstInt(y.Low); ok {
+						lo = k
+					}
+				}
+				switch {
+				case hi > 0:
+					sx, need, what = y.X, hi, sprintf("s[…:%d]", hi)
+				case lo > 0 && y.High == nil:
+					sx, need, what = y.X, lo, sprintf("s[%d:]", lo)
+				}
+			}
+			if sx == nil || need <= 0 {
 				return
 			}
-			if b, isB := lk.X.Type().Underlying().(*types.Basic); !isB || b.Info()&types.IsString == 0 {
+			if b, isB := sx.Type().Underlying().(*types.Basic); !isB || b.Info()&types.IsString == 0 {
 				return
 			}
-			k, isK := eng.ConstInt(lk.Index)
-			if !isK {
-				return
+			// the string comes from configuration or from a request: an element of a []string parameter/field, a
+			// configuration field, or (package config) a string parameter of an exported function – directly or
+			// through string helpers (TrimSpace, ToLower, …), which can return a shorter string
+			isInput := func(v ssa.Value) bool {
+				if _, ok := x.fromConfigField(v); ok {
+					return true
+				}
+				if rel == "config" && rangeElemOf(v, func(w ssa.Value) bool { _, isP := w.(*ssa.Parameter); return isP }) {
+					return true
+				}
+				if p, ok := v.(*ssa.Parameter); ok && rel == "config" && p.Parent() != nil && p.Parent().Object() != nil && p.Parent().Object().Exported() && p.Parent().Signature.Recv() == nil {
+					return true
+				}
+				return false
 			}
-			// string comes from a configuration list: element of a []string parameter/field, or a config field
-			_, fromCfg := x.fromConfigField(lk.X)
-			isElem := rangeElemOf(lk.X, func(v ssa.Value) bool {
-				_, isP := v.(*ssa.Parameter)
-				return isP
-			})
-			if !fromCfg && !(isElem && rel == "config") {
+			if _, ok := eng.Derives(sx, isInput, eng.FlowOpts{ThroughCalls: true}); !ok {
 				return
 			}
 			c.Examined++
-			// guard: len(s) > k dominates, i.e. with len(s) <= k the lookup is unreachable
-			kk := k
+			kk := need - 1 // unsafe exactly when len(s) <= need-1
 			as := &eng.Assume{Bool: func(v ssa.Value) eng.Tri {
-				// s == "" is the k = 0 form of the length guard
+				// s == "" is the need = 1 form of the length guard
 				if b, ok := v.(*ssa.BinOp); ok && kk == 0 && (b.Op == token.EQL || b.Op == token.NEQ) {
 					var other ssa.Value
-					if eng.SameLoc(b.X, lk.X) {
+					if eng.SameLoc(b.X, sx) {
 						other = b.Y
-					} else if eng.SameLoc(b.Y, lk.X) {
+					} else if eng.SameLoc(b.Y, sx) {
 						other = b.X
 					}
 					if str, ok := eng.ConstString(other); other != nil && ok && str == "" {
@@ -245,19 +277,78 @@ func c28(x *Ctx) {
 						return eng.False
 					}
 				}
+				// strings.HasPrefix(s, "lit") implies len(s) >= len("lit")
+				if cl, ok := v.(*ssa.Call); ok && eng.CalleeName(cl) == "strings.HasPrefix" && len(cl.Call.Args) == 2 && eng.SameLoc(cl.Call.Args[0], sx) {
+					if lit, ok := eng.ConstString(cl.Call.Args[1]); ok && int64(len(lit)) > kk {
+						return eng.False
+					}
+				}
 				return eng.EvalRel(v, []eng.RelFact{{A: func(u ssa.Value) bool {
 					cl, ok := u.(*ssa.Call)
 					if !ok {
 						return false
 					}
 					b, ok := cl.Call.Value.(*ssa.Builtin)
-					return ok && b.Name() == "len" && eng.SameLoc(cl.Call.Args[0], lk.X)
+					return ok && b.Name() == "len" && eng.SameLoc(cl.Call.Args[0], sx)
 				}, BConst: &kk, Rel: eng.LT | eng.EQ}})
 			}}
 			r := eng.ReachableSinks(f, as, nil, func(i2 ssa.Instruction) bool { return i2 == in })
-			c.Decide(len(r.Hits) == 0, rc, BaseName(f)+"/index", x.Pos(in), "index guarded by a length test",
-				sprintf("s[%d] on a string taken from configuration without a length guard: an empty entry (e.g. FieldList: [\"\"]) passes validation and panics here", k))
+			c.Decide(len(r.Hits) == 0, rc, BaseName(f)+"/"+what, x.Pos(in), "guarded by a length test on the same string",
+				what+" on a string that comes from configuration or a request header is reachable when the string is shorter: an entry such as \"\" or \" \" (after trimming), or a short API key, passes validation and panics here – over gRPC and in the collector goroutines nothing recovers")
 		})
 	}
 	c.Min(rc, 1)
+
+	// ---- (d) the root span of a trace may be missing: dereferences are guarded -----------------------------------
+	// (any client can leave the root span out; a decision made for a trace without one runs this code in a collector
+	// goroutine, where nothing recovers a nil dereference)
+	const rd = "C28.root-span-nil-guarded"
+	rootF := func(fr eng.FieldRef) bool {
+		return fr.Name == "RootSpan" && fr.Struct != nil && fr.Struct.Obj().Name() == "Trace"
+	}
+	isRootLoad := func(v ssa.Value) bool { return loadsField(v, rootF) }
+	nGuard := 0
+	for _, f := range x.RepoFuncs() {
+		rel := x.P.FuncRel(f)
+		if rel != "sample" && rel != "collect" && rel != "types" {
+			continue
+		}
+		seen := map[string]bool{}
+		eng.Instrs(f, func(in ssa.Instruction) {
+			var base ssa.Value
+			switch y := in.(type) {
+			case *ssa.FieldAddr:
+				base = y.X
+			case *ssa.Field:
+				base = y.X
+			default:
+				return
+			}
+			if !isRootLoad(base) {
+				return
+			}
+			key := BaseName(f) + "/RootSpan"
+			if seen[key] {
+				// one obligation per function; any unguarded site fails it
+			}
+			nGuard++
+			c.Examined++
+			as := &eng.Assume{Nil: func(v ssa.Value) eng.Tri {
+				if isRootLoad(v) {
+					return eng.True
+				}
+				return eng.Unknown
+			}}
+			r := eng.ReachableSinks(f, as, nil, func(i2 ssa.Instruction) bool { return i2 == in })
+			if len(r.Hits) > 0 {
+				c.Violate(rd, key, x.Pos(in), "the trace's root span is dereferenced on a path where it can be nil (no `RootSpan != nil` test covers it): a trace decided without a root span – which any client can cause by never sending one – crashes the process here")
+			} else if !seen[key] {
+				c.Hold(rd, key, x.Pos(in), "every dereference of RootSpan is behind a nil test")
+			}
+			seen[key] = true
+		})
+	}
+	if nGuard == 0 {
+		c.Unresolved(rd, "types.Trace.RootSpan", "no dereference of Trace.RootSpan found")
+	}
 }
